@@ -74,6 +74,13 @@ fn build_state(k: usize) -> Memfs {
         let _ = m.symlink("/stl", "/st");
         let _ = m.remove("/st");
         let _ = m.mkfile("/st");
+        // a link whose target is itself a link that lives in another directory (a copy under follow has to recreate
+        // it below a destination directory that does not exist yet)
+        let _ = m.mkdir_m("/ch", 0o700);
+        let _ = m.symlink("/ch/mid", "/a/f");
+        let _ = m.mkdir_p("/cdir/sub");
+        let _ = m.symlink("/cdir/link", "/ch/mid");
+        let _ = m.symlink("/cdir/sub/dlink", "/l");
         let _ = m.mkfile("/sf");
         let _ = m.symlink("/stf", "/sf");
         let _ = m.remove("/sf");
@@ -456,7 +463,7 @@ fn c12(ctx: &Ctx, rep: &mut Report) {
     }
     // two-path methods on meaningful nestings
     if ctx.shard == 0 {
-        let hot = ["/", "/a", "/a/b", "/a/f", "/l", "/a/lf", "/a/b/up", "/a/b/x/y", "/zz", "", "..", "/a/..", "/a/b/..", "/stl", "/stf", "/st"];
+        let hot = ["/", "/a", "/a/b", "/a/f", "/l", "/a/lf", "/a/b/up", "/a/b/x/y", "/zz", "", "..", "/a/..", "/a/b/..", "/stl", "/stf", "/st", "/cdir", "/cdir/link", "/ch"];
         for a in hot {
             for k in 1..3 {
                 run_ops(k, &ops_one(a), &format!("prepared:{}", if a.starts_with("/st") { "stale-link" } else { "entry" }), rep);
